@@ -1,9 +1,30 @@
 // ---- hashing stubs (assumed contracts): a BuildHasherDefault<H> hashes a value to a pure function of the value ----
 pub trait Hasher: Sized {}
-pub trait Hash {}
-impl<'a, T: Hash> Hash for &'a T {}
-impl Hash for u64 {} impl Hash for u32 {} impl Hash for usize {} impl Hash for u16 {} impl Hash for u8 {} impl Hash for i32 {} impl Hash for i64 {}
 pub uninterp spec fn hash_spec<H, X>(x: X) -> u64;
+// the state of a hasher obtained from build_hasher(): fresh, then fed one value, then finished
+#[verifier::external_body]
+#[verifier::reject_recursive_types(H)]
+pub struct HasherState<H> { _p: core::marker::PhantomData<H> }
+impl<H> HasherState<H> {
+    pub uninterp spec fn is_fresh(&self) -> bool;
+    pub uninterp spec fn digest(&self) -> u64;
+    #[verifier::external_body]
+    pub fn finish(&self) -> (r: u64) ensures r == self.digest() { unimplemented!() }
+}
+pub trait Hash: Sized {
+    // feeding a fresh hasher with x and finishing == hash_one(x)
+    fn hash<H>(&self, state: &mut HasherState<H>)
+        requires old(state).is_fresh(),
+        ensures final(state).digest() == hash_spec::<H, &&Self>(&self);
+}
+impl<'a, T: Hash> Hash for &'a T { #[verifier::external_body] fn hash<H>(&self, state: &mut HasherState<H>) { unimplemented!() } }
+impl Hash for u64 { #[verifier::external_body] fn hash<H>(&self, state: &mut HasherState<H>) { unimplemented!() } }
+impl Hash for u32 { #[verifier::external_body] fn hash<H>(&self, state: &mut HasherState<H>) { unimplemented!() } }
+impl Hash for usize { #[verifier::external_body] fn hash<H>(&self, state: &mut HasherState<H>) { unimplemented!() } }
+impl Hash for u16 { #[verifier::external_body] fn hash<H>(&self, state: &mut HasherState<H>) { unimplemented!() } }
+impl Hash for u8 { #[verifier::external_body] fn hash<H>(&self, state: &mut HasherState<H>) { unimplemented!() } }
+impl Hash for i32 { #[verifier::external_body] fn hash<H>(&self, state: &mut HasherState<H>) { unimplemented!() } }
+impl Hash for i64 { #[verifier::external_body] fn hash<H>(&self, state: &mut HasherState<H>) { unimplemented!() } }
 #[verifier::external_body]
 #[verifier::reject_recursive_types(H)]
 pub struct BuildHasherDefault<H> { _p: core::marker::PhantomData<H> }
@@ -14,6 +35,8 @@ impl<H> BuildHasherDefault<H> {
     { unimplemented!() }
     #[verifier::external_body]
     pub fn default() -> (r: Self) { unimplemented!() }
+    #[verifier::external_body]
+    pub fn build_hasher(&self) -> (r: HasherState<H>) ensures r.is_fresh() { unimplemented!() }
 }
 // murmur3_32 over the native-endian bytes of a u64 with a fixed seed: a pure function of the value
 pub uninterp spec fn murmur3_u64_spec(v: u64, seed: u32) -> u32;
